@@ -85,6 +85,8 @@ def amen_mv(A, b, nswp=22, x0=None, eps=1e-10, rmax=1024, kickrank=4, kick2=0, v
         raise IncompatibleTypes('A must be TT-matrix and b must be vector.')
     if A.N != b.N:
         raise ShapeMismatch('Dimension mismatch.')
+    if x0 is not None and (not isinstance(x0, torchtt.TT) or x0.is_ttm or x0.N != A.M):
+        raise ShapeMismatch('The initial guess must be a TT tensor of the shape of the result.')
 
     use_cpp = False
     if use_cpp and _flag_use_cpp:
